@@ -52,6 +52,11 @@ FIELDSPEC = {
     ('RetractionState', 'extrusionAmount'): 'num+',
     ('RetractionState', 'feedRate'): 'num',
     ('RetractionState', 'originalCommand'): 'str:+',
+    ('RectangularRegion', 'x1'): 'num', ('RectangularRegion', 'y1'): 'num',
+    ('RectangularRegion', 'x2'): 'num', ('RectangularRegion', 'y2'): 'num',
+    ('RectangularRegion', 'id'): 'opaque',
+    ('CircularRegion', 'cx'): 'num', ('CircularRegion', 'cy'): 'num', ('CircularRegion', 'r'): 'num',
+    ('CircularRegion', 'id'): 'opaque',
     ('GcodeHandlers', 'state'): 'obj:ExcludeRegionState',
     ('GcodeHandlers', 'gcodeParser'): 'obj:GcodeParser',
     ('ExcludedGcode', 'mode'): 'str',
@@ -113,6 +118,13 @@ MODULAR = [('GcodeHandlers', 'planArc'), ('GcodeHandlers', 'computeArcCenterOffs
 def make_interp(model, unroll=1, debug_logging=False, modular=True):
     I = Interp(model, dict(FIELDSPEC), unroll=unroll, debug_logging=debug_logging)
     install_mapget(I)
+
+    def logging_mode_setter(I, st, recv, args, kw, frame, node):
+        # log-file plumbing is outside every property: recorded as one opaque effect
+        st.heap[(recv.oid, '_loggingMode')] = args[0]
+        st.ev('ext', 'loggingMode.setter', tuple(args), (), frame.qual(), getattr(node, 'lineno', 0))
+        return [(st, NONE)]
+    I.summaries[('ExcludeRegionPlugin', 'loggingMode=')] = logging_mode_setter
     if modular:
         for key in MODULAR:
             I.modular[key] = True
